@@ -12,6 +12,15 @@ Placements3 == {"absent", "yes", "no"}
 \* kind "helper": as described; kind "direct": one method M1(S3) (T3, error) converting K string -> K int directly (no helper)
 WProgs == {[kind |-> "helper", pc |-> a, p1 |-> b, p2 |-> c] : a \in Placements3, b \in Placements3, c \in Placements3}
             \cup {[kind |-> "direct", pc |-> a, p1 |-> b, p2 |-> "absent"] : a \in Placements3, b \in Placements3}
+\* kind "ctxregex": arg:context:regex (absent / a pattern matching the extra parameter kx / one that does not) on the converter
+\* and on two declared methods Mi(source Si, kx int) Ti with `map V | Fn`, Fn(v string, kx int) string: the parameter kx of the
+\* method *and* of the custom function named on it is a context exactly when the pattern in effect for that method matches;
+\* otherwise there are two sources and generation fails.
+Placements3R == {"absent", "match", "nomatch"}
+WProgsR == {[kind |-> "ctxregex", pc |-> a, p1 |-> b, p2 |-> c] : a \in Placements3R, b \in Placements3R, c \in Placements3R}
+RegexLines(pl) == IF pl = "absent" THEN <<>> ELSE <<[key |-> "arg:context:regex", val |-> IF pl = "match" THEN "^kx$" ELSE "^zz$"]>>
+EffRegex(w, pl) == Effective(<<>>, RegexLines(w.pc), RegexLines(pl), "ctxRegex")
+RegexOK(w) == EffRegex(w, w.p1) = "^kx$" /\ EffRegex(w, w.p2) = "^kx$"
 LinesOf(pl) == IF pl = "absent" THEN <<>> ELSE <<[key |-> "wrapErrors", val |-> pl]>>
 EffConvW(w) == Effective(<<>>, LinesOf(w.pc), <<>>, "wrapErrors")
 EffMethW(w, pl) == Effective(<<>>, LinesOf(w.pc), LinesOf(pl), "wrapErrors")
